@@ -41,6 +41,7 @@ FIELDS = {
     "native2": ["u: uuid.UUID", "t: Optional[datetime.datetime] = None", "e: bytearray = field(default_factory=bytearray)"],
     "holes": ["a: H1", "b: Optional[H2] = None", "c: Dict[str, int] = field(default_factory=dict)"],
     "small": ["a: bytes", "b: Optional[datetime.date] = None"],
+    "selfref": ["a: bytes", "b: Optional[datetime.date] = None", "s: Optional[Self] = None"],
 }
 
 
@@ -93,7 +94,7 @@ def sample_instance(mod, p: FPoint):
     import uuid
 
     kw = {}
-    if p.fields in ("native", "small"):
+    if p.fields in ("native", "small", "selfref"):
         kw = dict(a=b"ab", b=datetime.date(2020, 1, 2))
         if p.fields == "native":
             kw.update(c=[1, 2])
@@ -103,6 +104,8 @@ def sample_instance(mod, p: FPoint):
         kw = dict(a=mod.H1(1), b=None, c={"k": 1})
     if p.nested or p.mode == "postponed":
         kw["n"] = mod.Later(b"z", None)
+    if p.fields == "selfref":
+        kw["s"] = mod.C(**dict(kw, a=b"cd"))
     return mod.C(**kw)
 
 
@@ -572,6 +575,8 @@ def lattice(tier):
                         pts.append(FPoint(mixin, mode, ds, fs, False, cd))
                 if mode != "postponed":
                     pts.append(FPoint(mixin, mode, ds, "small", True, "strategy" if ds else "none"))
+                    # a Self-typed field: the nested unit is built by the Self branch of pack.py / unpack.py
+                    pts.append(FPoint(mixin, mode, ds, "selfref", False, "strategy" if ds else "none"))
     seen, out = set(), []
     for p in pts:
         if p.label() not in seen:
@@ -768,7 +773,9 @@ def _extra_task(x):
     if x[0] == "S2":
         from . import s2merge
 
-        return {"obligations": s2merge.verify_merge(x[1]), "trusted": ["S2 loop rule: the two `for key, value in X.items()` loops of Dialect.merge are pointwise map loops (checked syntactically), analysed at one symbolic key"]}
+        from . import s3resolve
+
+        return {"obligations": s2merge.verify_merge(x[1]) + s3resolve.verify_option(x[1]), "trusted": ["S2 loop rule: the two `for key, value in X.items()` loops of Dialect.merge are pointwise map loops (checked syntactically), analysed at one symbolic key"]}
     return fcodec_task(x)
 
 
